@@ -436,4 +436,86 @@ theorem brightness_nonneg (tsub tsky rAir tauAir : ℝ) (hts : 0 ≤ tsub) (hsky
   have := g.u0
   positivity
 
+/-! ### the isothermal scene in closed form (Kirchhoff): energy-conserving, reciprocal interfaces -/
+
+/-- no loss at the two interfaces of a layer: reflectivity + transmissivity = 1 on the layer's side -/
+structure LosslessIf (ly : SLayer ℝ) : Prop where
+  top : ly.rTop + ly.tauUp = 1
+  bot : ly.rBot + ly.tauDn = 1
+
+/-- reciprocity: the upward transmissivity out of a layer equals the downward transmissivity into it (chain listed top-down) -/
+def Reciprocal : List (SLayer ℝ) → Prop
+  | [] => True
+  | [_] => True
+  | up :: lower :: rest => lower.tauUp = up.tauDn ∧ Reciprocal (lower :: rest)
+
+/-- at every level of an isothermal, loss-free-interface stack the emission seen is `T (1 − Γ)` -/
+theorem bottomOf_isothermal (T : ℝ) (ls : List (SLayer ℝ)) (hne : ls ≠ []) (hT : ∀ ly ∈ ls, ly.temp = T)
+    (hl : ∀ ly ∈ ls, LosslessIf ly) (hr : Reciprocal ls) (hd : DenOk T ls) :
+    (bottomOf T ls).2 = T * (1 - (bottomOf T ls).1) := by
+  induction ls with
+  | nil => exact absurd rfl hne
+  | cons up rest ih =>
+    cases rest with
+    | nil =>
+      have := (hl up (by simp)).bot
+      simp only [bottomOf]
+      have e : up.tauDn = 1 - up.rBot := by linarith
+      rw [e]; ring
+    | cons lower rest =>
+      obtain ⟨hrec1, hrec2⟩ := hr
+      obtain ⟨hd1, hd2⟩ := hd
+      have ihh := ih (by simp) (fun ly h => hT ly (by simp [h])) (fun ly h => hl ly (by simp [h])) hrec2 hd1
+      have hTl : lower.temp = T := hT lower (by simp)
+      have ltop := (hl lower (by simp)).top
+      have ubot := (hl up (by simp)).bot
+      simp only [bottomOf, throughInterface, throughLayer]
+      simp only [throughLayer] at hd2
+      set g := (bottomOf T (lower :: rest)).1 with hg
+      set s := (bottomOf T (lower :: rest)).2 with hs
+      rw [ihh, hTl]
+      have hden : 1 - lower.rTop * (lower.t * lower.t * g) ≠ 0 := hd2
+      have e1 : lower.rTop = 1 - lower.tauUp := by linarith
+      have e2 : up.rBot = 1 - up.tauDn := by linarith
+      rw [← hrec1] at e2
+      rw [e2, ← hrec1]
+      rw [e1] at hden ⊢
+      have h1 := mul_inv_cancel₀ hden
+      simp only [div_eq_mul_inv]
+      linear_combination (lower.tauUp * T) * h1
+
+/-- **brightness_isothermal** (C01 / Kirchhoff for non-scattering stacks): with every layer, the substrate and the sky at the same
+    temperature `T`, loss-free and reciprocal interfaces (`r + τ = 1` on both sides, `τ↑ = τ↓`), the closed-form brightness temperature is
+    exactly `T` - for any number of layers, any thicknesses and absorption -/
+theorem brightness_isothermal (T rAir tauAir : ℝ) (top : SLayer ℝ) (rest : List (SLayer ℝ))
+    (hT : ∀ ly ∈ top :: rest, ly.temp = T) (hl : ∀ ly ∈ top :: rest, LosslessIf ly) (hr : Reciprocal (top :: rest))
+    (hd : DenOk T (top :: rest)) (hair : rAir + tauAir = 1) (hrecip : tauAir = top.tauUp)
+    (hden : 1 - top.rTop * (throughLayer top (bottomOf T (top :: rest)).1 (bottomOf T (top :: rest)).2).1 ≠ 0) :
+    brightness T T rAir tauAir (top :: rest) = T := by
+  have hb := bottomOf_isothermal T (top :: rest) (by simp) hT hl hr hd
+  have hTt : top.temp = T := hT top (by simp)
+  have ltop := (hl top (by simp)).top
+  simp only [brightness, throughLayer]
+  simp only [throughLayer] at hden
+  set g := (bottomOf T (top :: rest)).1 with hg
+  rw [hb, hTt]
+  have e1 : top.rTop = 1 - top.tauUp := by linarith
+  have e2 : rAir = 1 - top.tauUp := by linarith
+  rw [e1] at hden ⊢
+  rw [e2, hrecip]
+  have h1 := mul_inv_cancel₀ hden
+  simp only [div_eq_mul_inv]
+  linear_combination (top.tauUp * T) * h1
+
+/-- the premises are satisfiable: two absorbing layers over a half-reflecting substrate -/
+example : brightness (250 : ℝ) 250 (1 - 0.9) 0.9 [⟨0.5, 250, 0.1, 0.9, 0.2, 0.8⟩, ⟨0.7, 250, 0.2, 0.8, 0.6, 0.4⟩] = 250 := by
+  refine brightness_isothermal 250 (1 - 0.9) 0.9 _ _ ?_ ?_ ?_ ?_ ?_ ?_ ?_
+  · intro ly h; simp at h; rcases h with h | h <;> subst h <;> rfl
+  · intro ly h; simp at h; rcases h with h | h <;> subst h <;> constructor <;> norm_num
+  · simp [Reciprocal]
+  · simp only [DenOk, bottomOf, throughLayer]; norm_num
+  · norm_num
+  · rfl
+  · simp only [bottomOf, throughLayer, throughInterface]; norm_num
+
 end Smrt.Props.C02
